@@ -24,7 +24,12 @@ def cells(a):
     """flat list of the cells of an ndarray / scalar (z3 terms or python values)"""
     if hasattr(a, "_cells"):
         # bit patterns of Int-represented data (uninterpreted bijection, DESIGN 3.3) are observed as numbers
-        return [np._bv_to_int(c) if np._is_bits_term(c) else c for c in a._cells()]
+        out = [np._bv_to_int(c) if np._is_bits_term(c) else c for c in a._cells()]
+        if any(isinstance(c, float) for c in out):      # concrete floats of the symbolic numpy: observed as bit patterns like everything else
+            import struct
+            fmt = {2: ("<e", "<H"), 4: ("<f", "<I"), 8: ("<d", "<Q")}[a.dtype.itemsize]
+            out = [struct.unpack(fmt[1], struct.pack(fmt[0], c))[0] if isinstance(c, float) else c for c in out]
+        return out
     if hasattr(a, "val") and hasattr(a, "weak"):      # shim scalar / symbolic python scalar
         return [a.val]
     a = np.asarray(a)
